@@ -653,6 +653,46 @@ func runC17(c *Ctx) {
 			}
 		}
 	}
+	// ---- M-text, two expressions: what the migration remembers about the first (it lost its parentheses) must not reach
+	// beyond the text that follows it - text, a second expression, and text that starts like a continuation of a reference
+	{
+		firsts := []string{"contact.gender", "flow.x", "contact", "SUM(1, 2)", "contact.age + 1", "\"x\"", "flow.x.category"}
+		seconds := []string{"1 + 2", "UPPER(contact.name)", "contact.gender", "flow.x", "\"y\""}
+		mids := []string{" is ", ", ", ": ", " ", "", " and then ", "."}
+		afters := []string{"px wide", "_x", "1", ".b", ". Hi", " x", "", ".", "(", ".5", "s"}
+		for _, e1 := range firsts {
+			for _, mid := range mids {
+				for _, e2 := range seconds {
+					for _, after := range afters {
+						legacy := "@(" + e1 + ")" + mid + "@(" + e2 + ")" + after
+						m, err := expressions.MigrateTemplate(legacy, nil)
+						c.Count("check:M-text-two")
+						if err != nil {
+							continue
+						}
+						var bodies []string
+						nexpr := 0
+						excellent.VisitTemplate(m, nil, false, func(tt excellent.XTokenType, tok string) error {
+							if tt == excellent.BODY {
+								bodies = append(bodies, tok)
+							} else {
+								nexpr++
+								bodies = append(bodies, "\x00")
+							}
+							return nil
+						})
+						got := strings.Join(bodies, "")
+						want := "\x00" + mid + "\x00" + after
+						c.Eval("text2|" + e1 + "|" + mid + "|" + e2 + "|" + after)
+						if nexpr != 2 || got != want {
+							c.Fail("monitor", "M-text", "surrounding-text-changed", "the text around two migrated expressions is not the text around the legacy expressions (text or an expression was taken into another expression, or lost)",
+								map[string]any{"legacy": legacy, "migrated": m, "read_back": strings.ReplaceAll(got, "\x00", "<expr>"), "expected": strings.ReplaceAll(want, "\x00", "<expr>")})
+						}
+					}
+				}
+			}
+		}
+	}
 	g := &legacyGen{r: r}
 	// K: the operator core against the model
 	for i := 0; i < c.N(3000, 150000); i++ {
